@@ -1368,7 +1368,7 @@ def run(chk, tier, seed):
     got_k = {q: dict(dec.aliases) for q, _, dec in found_k}
     for q, want in sorted(EXPECT_U.items()):
         chk.evaluations += 1
-        if got_u.get(q) != want:
+        if sorted(set(got_u.get(q, []))) != want:           # order and repetitions of the listing are immaterial here
             chk.violation("%sreal:index-list:%s" % (K, q), dict(function=q, expected=want, found=got_u.get(q, "not decorated")))
     for q, want in sorted(EXPECT_K.items()):
         chk.evaluations += 1
